@@ -267,9 +267,16 @@ func runCheck(id, tier, repo, verif string, writeEvidence bool) int {
 	wg.Wait()
 	// second chance, one at a time: an obligation that ran out of time (no counterexample) while everything else
 	// was running is tried again alone with twice the time before it is reported
+	undecided := 0
+	for i := range cr.results {
+		if r := &cr.results[i]; !r.OK && r.Res.Verdict != "sat" && !r.Obl.Cover {
+			undecided++
+		}
+	}
 	for i := range cr.results {
 		r := &cr.results[i]
-		if r.OK || r.Res.Verdict == "sat" || r.Obl.Cover {
+		if r.OK || r.Res.Verdict == "sat" || r.Obl.Cover || undecided > 6 {
+			// (more than a handful of undecided obligations is not a scheduling accident)
 			continue
 		}
 		again := P.dischargeOne(r.Obl, tmp, 2*cr.timeout, false)
